@@ -61,7 +61,23 @@ VARIANTS = [
       lambda nd: isinstance(nd, ast.For) and "startswith('_model')" in ast.unparse(nd),
       lambda nd: ast.For(target=nd.target, iter=expr("self.nodes"), body=nd.body, orelse=[]),
       note="reserved names checked only for directly added nodes", expect_rule="C15.R3"),
+    V("c15_dup_nodes_twice_ok", "M", M, "Model.__init__",
+      lambda nd: isinstance(nd, ast.Compare) and ast.unparse(nd) == "v > 1",
+      lambda nd: expr("v > 2"),
+      note="a node name may occur twice", expect_rule="C15.R2"),
+    V("c15_dup_vars_unchecked", "M", M, "Model.__init__",
+      lambda nd: isinstance(nd, ast.Compare) and ast.unparse(nd) == "v > 1",
+      lambda nd: expr("v > 10 ** 6"), nth=1,
+      note="duplicate variable names accepted", expect_rule="C15.R2"),
+    V("c15_copy_guard_negated", "M", M, "Model.__init__",
+      lambda nd: isinstance(nd, ast.If) and ast.unparse(nd.test) == "copy",
+      lambda nd: ast.If(test=expr("not copy"), body=nd.body, orelse=nd.orelse),
+      note="deep copy exactly when NOT requested", expect_rule="C15.R5"),
     # ---- twins
+    V("c15_t_dup_ge2", "T", M, "Model.__init__",
+      lambda nd: isinstance(nd, ast.Compare) and ast.unparse(nd) == "v > 1",
+      lambda nd: expr("v >= 2"),
+      note="same threshold"),
     V("c15_t_decorator_order", "T", N, "Node",
       lambda nd: isinstance(nd, ast.FunctionDef) and nd.name == "set_inputs",
       lambda nd: nd, note="identity (placeholder)"),
